@@ -347,6 +347,8 @@ impl Searcher {
     ) -> Result<eval::Evaluation, SearchInterrupt> {
         // We're searching a new node here
         *nodes_searched += 1;
+        #[cfg(feature = "verif")]
+        verif::observe(verif::Site::Node, 0);
 
         // To avoid spending a lot of time waiting for atomic operations,
         // let's avoid checking the cancellation token in the lower leaf nodes
@@ -680,11 +682,15 @@ impl TranspositionTableAccess {
     }
 
     fn insert(&self, hash: Hash, entry: TranspositionEntry) {
+        #[cfg(feature = "verif")]
+        verif::observe(verif::Site::TableInsert, hash);
         let index = hash as usize % self.tables.len();
         self.tables[index].write().unwrap().insert(hash, entry);
     }
 
     fn find(&self, hash: Hash) -> Option<TranspositionEntry> {
+        #[cfg(feature = "verif")]
+        verif::observe(verif::Site::TableFind, hash);
         let index = hash as usize % self.tables.len();
         self.tables[index].read().unwrap().find(hash).copied()
     }
@@ -916,6 +922,8 @@ impl CancellationToken {
     }
 
     fn cancel(&self) {
+        #[cfg(feature = "verif")]
+        verif::observe(verif::Site::Cancel, 0);
         self.cancelled.store(true, Ordering::Relaxed);
     }
 
@@ -1158,5 +1166,199 @@ mod tests {
                 )
             );
         }
+    }
+}
+
+/// Verification hooks. Compiled only with the `verif` feature; nothing here is used by the engine.
+#[cfg(feature = "verif")]
+pub mod verif {
+    use super::*;
+
+    #[derive(Debug, Clone, Copy, PartialEq, Eq, Hash)]
+    pub enum Site {
+        Node,
+        TableInsert,
+        TableFind,
+        Cancel,
+    }
+
+    pub type Observer = Arc<dyn Fn(Site, u64) + Send + Sync>;
+
+    static OBSERVER_SET: AtomicBool = AtomicBool::new(false);
+    static OBSERVER: RwLock<Option<Observer>> = RwLock::new(None);
+
+    pub fn set_observer(observer: Option<Observer>) {
+        let mut slot = OBSERVER.write().unwrap();
+        OBSERVER_SET.store(observer.is_some(), Ordering::SeqCst);
+        *slot = observer;
+    }
+
+    #[inline]
+    pub(super) fn observe(site: Site, key: u64) {
+        if OBSERVER_SET.load(Ordering::Relaxed) {
+            let observer = OBSERVER.read().unwrap().clone();
+            if let Some(observer) = observer {
+                observer(site, key);
+            }
+        }
+    }
+
+    #[derive(Clone)]
+    pub struct Cancel(CancellationToken);
+
+    impl Cancel {
+        pub fn new() -> Self {
+            Self(CancellationToken::new().0)
+        }
+
+        pub fn cancel(&self) {
+            self.0.cancel()
+        }
+
+        pub fn is_cancelled(&self) -> bool {
+            self.0.is_cancelled()
+        }
+    }
+
+    pub fn small_artifact(hasher_seed: u64, tables: usize, buckets: usize) -> SearchArtifact {
+        let mut rng = RandomNumberGenerator::seed_from_u64(hasher_seed);
+        SearchArtifact {
+            hasher: ZobristHasher::with(&mut rng),
+            transpositions: TranspositionTableAccess::with_tables(
+                (0..tables)
+                    .map(|_| TranspositionTable::with_bucket_count(buckets))
+                    .collect(),
+            ),
+            state_history: StateHistory::new(),
+        }
+    }
+
+    pub fn record_history(artifact: &mut SearchArtifact, state: &State) {
+        let hash = artifact.hasher.hash(state);
+        artifact.state_history.increment(hash);
+    }
+
+    pub fn history_contains(artifact: &SearchArtifact, state: &State) -> bool {
+        let hash = artifact.hasher.hash(state);
+        artifact.state_history.lookup(&hash).is_some()
+    }
+
+    pub fn analyze_sync(
+        state: State,
+        evaluator: &eval::Evaluator,
+        seed: u64,
+        max_depth: Option<usize>,
+        cancel: &Cancel,
+        artifact: Option<SearchArtifact>,
+        workers: Option<usize>,
+        f: &mut dyn FnMut(StatusEvent),
+    ) -> SearchArtifact {
+        Searcher::analyze_iterative(
+            state,
+            evaluator,
+            RandomNumberGenerator::seed_from_u64(seed),
+            max_depth,
+            cancel.0.clone(),
+            artifact,
+            workers,
+            &mut |e| f(e),
+        )
+    }
+
+    #[derive(Debug, Clone, Copy, PartialEq, Eq)]
+    pub struct TableEntry {
+        pub performed_move: Move,
+        pub evaluation: i32,
+        pub depth: usize,
+        pub max_depth: usize,
+        pub kind: u8,
+    }
+
+    pub struct Table(TranspositionTableAccess);
+
+    impl Table {
+        pub fn new(tables: usize, buckets: usize) -> Self {
+            Self(TranspositionTableAccess::with_tables(
+                (0..tables)
+                    .map(|_| TranspositionTable::with_bucket_count(buckets))
+                    .collect(),
+            ))
+        }
+
+        pub fn insert(&self, key: Hash, entry: TableEntry) {
+            self.0.insert(
+                key,
+                TranspositionEntry {
+                    kind: match entry.kind {
+                        0 => EvaluationKind::Exact,
+                        1 => EvaluationKind::UpperBound,
+                        _ => EvaluationKind::LowerBound,
+                    },
+                    performed_move: entry.performed_move,
+                    depth: entry.depth,
+                    max_depth: entry.max_depth,
+                    evaluation: eval::Evaluation::from(entry.evaluation),
+                },
+            )
+        }
+
+        pub fn find(&self, key: Hash) -> Option<TableEntry> {
+            self.0.find(key).map(|e| TableEntry {
+                performed_move: e.performed_move,
+                evaluation: e.evaluation.into(),
+                depth: e.depth,
+                max_depth: e.max_depth,
+                kind: match e.kind {
+                    EvaluationKind::Exact => 0,
+                    EvaluationKind::UpperBound => 1,
+                    EvaluationKind::LowerBound => 2,
+                },
+            })
+        }
+
+        pub fn entries(&self) -> usize {
+            self.0.entries()
+        }
+
+        pub fn max_entries(&self) -> usize {
+            self.0.max_entries()
+        }
+
+        /// Every occupied slot as (table, bucket, slot, key), read from the real storage
+        pub fn occupied(&self) -> Vec<(usize, usize, usize, Hash)> {
+            occupied_slots(&self.0)
+        }
+    }
+
+    fn occupied_slots(access: &TranspositionTableAccess) -> Vec<(usize, usize, usize, Hash)> {
+        let mut result = Vec::new();
+        for (t, table) in access.tables.iter().enumerate() {
+            let table = table.read().unwrap();
+            for (b, bucket) in table.buckets.iter().enumerate() {
+                for (i, slot) in bucket.entries.iter().enumerate() {
+                    if let Some((key, _)) = slot {
+                        result.push((t, b, i, *key));
+                    }
+                }
+            }
+        }
+
+        result
+    }
+
+    /// The same read-only views on the table inside a search artifact (quiescent points only)
+    pub fn artifact_occupied(artifact: &SearchArtifact) -> Vec<(usize, usize, usize, Hash)> {
+        occupied_slots(&artifact.transpositions)
+    }
+
+    pub fn artifact_entries(artifact: &SearchArtifact) -> (usize, usize) {
+        (
+            artifact.transpositions.entries(),
+            artifact.transpositions.max_entries(),
+        )
+    }
+
+    pub fn artifact_hash(artifact: &SearchArtifact, state: &State) -> Hash {
+        artifact.hasher.hash(state)
     }
 }
